@@ -206,7 +206,7 @@ func valid(g *mgeom.Geom, depth int) error {
 func (prop) Generate(r *prng.Rand, phase string) any {
 	s := &Scenario{L0: r.Intn(5)}
 	cfg := mgeom.SwarmCfg(r, []int{1, 2, 3, 4})
-	cfg.FloatMode = []int{0, 0, 2}[r.Intn(3)]
+	cfg.FloatMode = []int{0, 0, 2, 2, 4}[r.Intn(5)] // small; any finite value; any ordered value (the statement excludes NaN only)
 	cfg.SRIDMode = 0
 	if cfg.MaxCoords > 8 && cfg.ExactCoords == 0 {
 		cfg.MaxCoords = 8
